@@ -14,6 +14,7 @@ package main
 import (
 	"encoding/json"
 	"fmt"
+	"math/big"
 	"math/rand"
 	"sort"
 	"strings"
@@ -371,13 +372,14 @@ func runC19(c *Ctx) {
 // law pairs
 
 type utilPair struct {
-	Fn   string `json:"fn"`
-	In   []int  `json:"in"`
-	Out  []int  `json:"out"`
-	Out2 []int  `json:"out2"`
-	Var  []int  `json:"var,omitempty"`
-	OutV []int  `json:"outv"`
-	Oor  bool   `json:"oor"`
+	Fn      string `json:"fn"`
+	In      []int  `json:"in"`
+	Out     []int  `json:"out"`
+	Out2    []int  `json:"out2"`
+	Var     []int  `json:"var,omitempty"`
+	OutV    []int  `json:"outv"`
+	Oor     bool   `json:"oor"`
+	OorLong bool   `json:"oorlong"`
 }
 
 func bytesToInts(b []byte) []int {
@@ -454,8 +456,30 @@ func makePair(fn string, in, variant []byte) (p utilPair) {
 	}
 	if fn == "ResolveNumericReferences" {
 		p.Oor = numericRefOutOfRange(in)
+		p.OorLong = numericRefTooLarge(in)
 	}
 	return p
+}
+
+// numericRefTooLarge: the whole input is one numeric reference, of ANY number of digits, whose
+// value is above U+10FFFF: whether or not more digits than CommonMark allows still count as a
+// reference, the result may be U+FFFD or the unchanged text, never some other character.
+func numericRefTooLarge(in []byte) bool {
+	s := string(in)
+	if !strings.HasPrefix(s, "&#") || !strings.HasSuffix(s, ";") {
+		return false
+	}
+	body := s[2 : len(s)-1]
+	base := 10
+	if strings.HasPrefix(body, "x") || strings.HasPrefix(body, "X") {
+		base = 16
+		body = body[1:]
+	}
+	if body == "" {
+		return false
+	}
+	v, ok := new(big.Int).SetString(body, base)
+	return ok && v.Cmp(big.NewInt(0x10FFFF)) > 0
 }
 
 // numericRefOutOfRange: the whole input is one numeric reference to 0, a surrogate or a
@@ -515,7 +539,7 @@ func genUtilPairs(c *Ctx) []utilPair {
 	rec(nil, maxLen)
 	// structured seeds
 	seeds := []string{"%4g", "%41", "%4", "%%41", "a%zzb", "%c3%a9", "é", "a b", "&amp;", "&lt;&gt;&quot;", "&#0;", "&#x110000;", "&#1114112;", "&#xD800;", "&#55296;", "&#xDFFF;", "&#x10FFFF;", "&#65;", "&#x41;",
-		"&#9999999;", "&#xFFFFFF;", "&copy;", "&nosuch;", "&nvlt;", "&nvgt;", "\\&\\#\\;", "\\a\\\\", "ẞ", "ß", "µ", "Μ", "K", "ǅ", "İ", "ſ", "ς", "Σ", " a  b ", "a\tb\n c", "http://a/b?c=d&e=f#g", "a\x00b", "\xe3", "\xf0\x9f", "\xc3",
+		"&#9999999;", "&#xFFFFFF;", "&#x100000041;", "&#x100000000;", "&#xFFFFFFFF;", "&#x1000000000000041;", "&#x10000000000000041;", "&#X80000041;", "&#4294967361;", "&#18446744073709551681;", "&#99999999;", "&#x0000000041;", "&#0000000065;", "&#x00110000;", "&#2147483713;", "&copy;", "&nosuch;", "&nvlt;", "&nvgt;", "\\&\\#\\;", "\\a\\\\", "ẞ", "ß", "µ", "Μ", "K", "ǅ", "İ", "ſ", "ς", "Σ", " a  b ", "a\tb\n c", "http://a/b?c=d&e=f#g", "a\x00b", "\xe3", "\xf0\x9f", "\xc3",
 		"日本語", "😀", "​", "a+b", "~", "'", "`", "{}", "|", "^", "[x]", " ", " "}
 	for _, s := range seeds {
 		for _, fn := range fns {
